@@ -346,6 +346,30 @@ func (p c19) faithful(c *core.Ctx) {
 		c.Fail("", fmt.Sprintf("tag %q: IsRequired()=%v but explicit required=false present: %v", tag, pr.IsRequired(), wantOptional), nil)
 		return
 	}
+	// run-time additions through the public API address the same argument whatever the case of the first
+	// letter: AddArg appends to what the tag gave, SetArg replaces it
+	for _, key := range core.SortedKeys(rargs) {
+		variant := key
+		if c.Rng.Intn(2) == 0 {
+			variant = strings.ToUpper(key[:1]) + key[1:]
+		}
+		if c.Rng.Intn(2) == 0 {
+			pr.AddArg(component_definition.ArgType(variant), "extra-item")
+			want := append(append([]string{}, rargs[key]...), "extra-item")
+			if got, _ := pr.Args().Find(component_definition.ArgType(key)); !reflect.DeepEqual(got, want) {
+				c.Fail("", fmt.Sprintf("tag %q: after AddArg(%q, \"extra-item\") argument %q has items %q, expected %q", tag, variant, key, got, want), nil)
+				return
+			}
+		} else {
+			pr.SetArg(component_definition.ArgType(variant), "only-item")
+			if got, _ := pr.Args().Find(component_definition.ArgType(key)); !reflect.DeepEqual(got, []string{"only-item"}) {
+				c.Fail("", fmt.Sprintf("tag %q: after SetArg(%q, \"only-item\") argument %q has items %q", tag, variant, key, got), nil)
+				return
+			}
+		}
+		c.Count("run_time_argument_changes_checked", 1)
+		break
+	}
 	if len(rargs) >= 2 && brackets {
 		c.Nontrivial(tag)
 		if c.WantSample() {
